@@ -23,21 +23,26 @@ DS = [1e-3, -1e-3, 0.1, -0.1, 1., -1.]
 
 
 def run_case(rng, tier, case):
-    base = gen.gen_mixed_portfolio(rng, kinds=KINDS, grid_kw={'steps': (4, 20)}, n_assets=(2, 5), n_nodes=(1, 3), mip_ok=False)
+    want_split = rng.random() < 0.35
+    gkw = {'steps': (4, 20)} if not want_split else {'steps': (16, 44), 'freqs': ['h', 'h', '2h', '30min'], 'hour_offsets': (0, 6, 18, 3)}
+    base = gen.gen_mixed_portfolio(rng, kinds=KINDS, grid_kw=gkw, n_assets=(2, 5), n_nodes=(1, 3), mip_ok=False)
     spec = gen.strip_private(base)
     for a in spec['assets']:
         if a['type'] == 'OrderBook':
             a['full_exec'] = False
-    split = gen.pick(rng, ['d', '12h', '6h']) if (rng.random() < 0.3 and not spec['grid']['freq'].endswith('d')) else None
+    split = gen.pick(rng, ['d', '12h', '6h', '8h']) if want_split else None
     for t in gen.asset_types(spec):
         case.feature('type:' + t)
     case.feature('split' if split else 'monolithic')
     case.key = env.spec_key([spec, split]); case.sample = dict(gen.abbreviate(base), split=split); case.spec = {'spec': spec, 'split': split}
     r = flow.run_portfolio(spec, split=split)
     if not r.ok:
+        if r.stage == 'extract' and r.res is not None and not isinstance(r.res, str):
+            case.check('price.extraction_works', False, split=split, error=flow.describe_error(r)); return
         case.reject(flow.describe_error(r)); return
     if not r.solved:
         case.inconc('not solved: ' + str(r.res)); return
+    case.check('price.extraction_works', True, split=split)
     prices = r.out.get('prices')
     V0 = float(r.res.value)
     ops = r.op.ops if split else [r.op]
@@ -46,10 +51,45 @@ def run_case(rng, tier, case):
         case.inconc('optimize events do not match problems'); return
     times = r.built.timegrid.timepoints
     pairs = []
+    # (node, step) of every nodal row, derived independently of map_nodal_restr: the set of variables in the row must be the set of
+    # dispatch variables the (concatenated, original-grid) mapping lists for exactly one (node, step)
+    M = r.op.mapping
+    Md = M[M['type'] == 'd']
+    by_ns = {}
+    for idx, n_, t_ in zip(Md.index, Md['node'], Md['time_step']):
+        by_ns.setdefault((str(n_), int(t_)), set()).add(int(idx))
+    inv = {}
+    for key, vs in by_ns.items():
+        inv.setdefault(frozenset(vs), []).append(key)
+    off = 0
+    mism = []
     for k, (op, ev) in enumerate(zip(ops, evs)):
-        rows = nodal_row_index(Snap(op))
+        sn = Snap(op)
+        rows = nodal_row_index(sn)
+        A = sn.A.tocsr()
         for j, (t, n) in enumerate(op.map_nodal_restr):
-            pairs.append((k, rows[j], int(t), str(n)))
+            vs = frozenset(int(c) + off for c in A.getrow(rows[j]).indices)
+            cand = inv.get(vs, [])
+            if len(cand) == 1:
+                n_i, t_i = cand[0]
+                if (n_i, t_i) != (str(n), int(t)):
+                    mism.append({'interval': k, 'row': j, 'map_nodal_restr': [int(t), str(n)], 'from_mapping': [t_i, n_i]})
+                pairs.append((k, rows[j], t_i, n_i))
+            else:
+                case.event('nodal_row_not_uniquely_identified')
+        off += len(op.c)
+    case.check('price.nodal_row_labelled_with_its_node_and_step', not mism, nonvacuous=len(pairs) > 0, first=mism[:3], split=split)
+    # a second extraction from the same objects must report the same prices
+    import eaopack.io as eio
+    with env.quiet():
+        out2 = eio.extract_output(r.built.portfolio, r.op, r.res, r.built.prices)
+    p1 = r.out.get('prices'); p2 = out2.get('prices')
+    same = (p1 is None and p2 is None) or (p1 is not None and p2 is not None and list(p1.columns) == list(p2.columns) and
+                                            np.allclose(p1.values.astype(float), p2.values.astype(float), rtol=0, atol=0, equal_nan=True))
+    case.check('price.repeated_extraction_same_prices', bool(same), nonvacuous=p1 is not None and len(p1.columns) > 0)
+    if rng.random() < 0.5:
+        r.out = out2
+        case.feature('prices_from_second_extraction')
     # every nodal row has a reported price
     col_ok = prices is not None and len(prices.columns) > 0
     missing = []
